@@ -1732,6 +1732,22 @@ class C03(Prop):
                 out.append(ini + [("ret", ("aop", op, h, h))])
                 out.append(ini + [("ret", ("bin", op, h, h))])
                 extra.append([len(out) - 2, len(out) - 1])
+            if kind in ("arr", "str", "buf", "map") and where in ("local", "global"):
+                # FRESHNESS: `b + empty`, `empty + b`, `b + b`, `b - ({})` are new values - a store into the result must not show
+                # through the operand that is still held (add_array / add_mapping hand the operand itself back only when
+                # nobody else holds it)
+                empty = {"arr": Arr([]), "str": S(b""), "buf": Buf([]), "map": Map([])}[kind]
+                size = {"arr": lambda: n, "str": lambda: len(v0[1][1]), "buf": lambda: len(bs), "map": lambda: 1}[kind]()
+                store = [] if size == 0 else [("expr", ("asg", ("idx", L(D), I(-5) if kind == "map" else I(0)), I(88)))]
+                forms = [("bin", "add", L(B), empty), ("bin", "add", empty, L(B))]
+                if kind == "arr":
+                    forms.append(("bin", "sub", L(B), Arr([])))
+                    forms.append(("bin", "sub", L(B), Arr([S(b"not there")])))
+                k0 = len(out)
+                for f in forms:
+                    out.append(ini + [("expr", ("asg", L(B), h)), ("expr", ("asg", L(D), f))] + store + [("ret", Arr([L(D), L(B), h]))])
+                out.append(ini + init(L(D)) + store + [("ret", Arr([L(D), h, h]))])
+                extra.append(list(range(k0, len(out))))
             return out, [grp] + extra
         where = rng.weighted([("local", 4), ("global", 2), ("elem", 3), ("mapval", 2)])
         if where == "local":
@@ -1771,6 +1787,14 @@ class C03(Prop):
             Bc.append(make_case("b-" + name, fns, same=same, defines=defines, meta={"origin": "boundary", "family": name}))
         two32 = 2 ** 32
         arr3 = Arr([I(10), I(20), I(30)])
+        # a zero byte goes into a buffer element but never into a string - also right after a buffer store (the char lvalue of
+        # strings and buffers is one shared object in interpret.c)
+        mk("lvbyte-buf-then-str", [[("expr", ("asg", L(A), Buf([65, 66]))), ("expr", ("asg", ("idx", L(A), I(0)), I(0))), ("ret", L(A))],
+                                   [("expr", ("asg", L(A), Buf([65, 66]))), ("expr", ("asg", ("idx", L(A), I(0)), I(0))),
+                                    ("expr", ("asg", L(C), ("bin", "add", S(b"abc"), S(b"")))), ("expr", ("asg", ("idx", L(C), I(1)), I(256))), ("ret", L(C))],
+                                   [("expr", ("asg", L(A), Buf([65, 66]))), ("expr", ("inc", "predec", ("idx", L(A), I(0)))),
+                                    ("expr", ("asg", L(C), ("bin", "add", S(b"abc"), S(b"")))), ("expr", ("aop", "add", ("idx", L(C), I(1)), I(158))), ("ret", L(C))],
+                                   [("expr", ("asg", L(C), ("bin", "add", S(b"abc"), S(b"")))), ("expr", ("asg", ("idx", L(C), I(1)), I(0))), ("ret", L(C))]], same=[])
         # (1) x == 0 on a real
         mk("eq0-real", [[("expr", ("asg", L(LX), Fl(0.0))), ("ret", ("bin", "eq", L(LX), I(0)))],
                         [("expr", ("asg", L(A), Fl(0.0))), ("expr", ("asg", L(B), I(0))), ("ret", ("bin", "eq", L(A), L(B)))],
